@@ -25,10 +25,14 @@ RULE = (
 ASSUMPTIONS = ["simulated schedulers (simbin) stand in for Slurm/SGE/LSF", "spec hashing off (covered by C18)"]
 
 
+QUICK_BUDGET = {"cases": 420, "deadline_s": 100, "case_timeout_s": 90, "floors": {"runs": 300, "submissions": 400, "prereq_sets": 400}}
+THOROUGH_FACTOR = 45  # thorough = the same workload with 45x the cases (floors scale along)
+
+
 def budget(tier):
-    if tier == "thorough":
-        return {"cases": 5000, "deadline_s": 900, "case_timeout_s": 180, "floors": {"runs": 4000, "submissions": 6000, "prereq_sets": 6000}}
-    return {"cases": 420, "deadline_s": 100, "case_timeout_s": 90, "floors": {"runs": 300, "submissions": 400, "prereq_sets": 400}}
+    from ..core import scaled_budget
+
+    return scaled_budget(QUICK_BUDGET, tier, THOROUGH_FACTOR, noscale=())
 
 
 def gen_case(rng, idx, tier):
